@@ -55,6 +55,8 @@ def specs(tier):
         (tie, [('A2D1', .6), ('A1A2', .4)], OMEN_A),  # mask groups of 4 and 2 equally probable masks, not in last position
         (t0, [('M', .5), ('A1D1', .5)], OMEN_T),
         (t0, [('M', .6), ('A1', .4)], OMEN_U),
+        # structures that END in two plain replacements, both with groups of several equally probable values (2 x 2 and 2 x 2 strings per pre-terminal)
+        (t0, [('D1O1', .5), ('Y1O1', .3), ('O1D1', .2)], OMEN_A),
         (t0, [('M', .5), ('A1D1', .5)], OMEN_T3),
         (t0, [('D1', .4), ('M', .6)], OMEN_T4),
         (t0, [('D2', .5), ('M', .5)], OMEN_0),
